@@ -187,6 +187,15 @@ bool runcrypt::execute_encrypt(size_t fsize, u8_t *r_buf)
   resultprint->resetPercentage();
   buffergroup::del_instance();
   TIMER_END(AES_Encryption_Time)
+  // 输出写入失败(磁盘已满/设备不可写): 报告失败, 不再对输出计算hmac
+  if (out != NULL && (fflush(out) != 0 || ferror(out)))
+  {
+    release(iv, mode);
+    resultprint->printresv(5);
+    over();
+    TIMER_END(Total_Time);
+    return false;
+  }
   // 写入hamc
   TIMER_START(Hashing_Time)
   resultprint->printtask("Calculating hmac");
@@ -228,6 +237,9 @@ bool runcrypt::execute_decrypt(size_t fsize)
     crym.run_multicry(mode, boundfunc);
     resultprint->resetPercentage();
     TIMER_END(AES_Decryption_Time)
+    // 输出写入失败(磁盘已满/设备不可写)
+    if (out != NULL && (fflush(out) != 0 || ferror(out)))
+      res = 5;
     // 释放空间
     resultprint->printtask("Releasing allocated memory");
     buffergroup::del_instance();
